@@ -17,6 +17,8 @@ pub struct C14 {
 
 impl C14 {
     pub fn new() -> Self {
+        // the CLI leg: build the binary (a no-op when fresh) before any case is answered
+        let _ = env::cli_binary();
         C14 { tm: env::load_type_map_with(env::adversarial_classes()) }
     }
 }
@@ -46,7 +48,7 @@ impl Stream for C14 {
             }
             // the generator's own expectation: does some binding have to be set up by the support header?
             let needs_header = if dynamic || header_const { "yes" } else { "no" };
-            cases.push(Case { kind: "oracle", labels: labels.clone(), request: node("c14-modes", vec![node("src", vec![st(doc.src.clone())]), node("needs-header", vec![atom(needs_header)])]) });
+            cases.push(Case { kind: "oracle", labels: labels.clone(), request: node("c14-modes", vec![node("src", vec![st(doc.src.clone())]), node("needs-header", vec![atom(needs_header)]), node("cli", vec![crate::sexp::boolean(k % 8 == 1)])]) });
             for m in Mode::all() {
                 let mut l = labels.clone();
                 l.push(m.name().into());
@@ -59,7 +61,7 @@ impl Stream for C14 {
                 if !dynamic {
                     labels.push("constant-only".into());
                 }
-                cases.push(Case { kind: "oracle", labels: labels.clone(), request: node("c14-modes", vec![node("src", vec![st(fdoc.src.clone())]), node("needs-header", vec![atom("unknown")])]) });
+                cases.push(Case { kind: "oracle", labels: labels.clone(), request: node("c14-modes", vec![node("src", vec![st(fdoc.src.clone())]), node("needs-header", vec![atom("unknown")]), node("cli", vec![crate::sexp::boolean(k % 8 == 5)])]) });
                 for m in Mode::all() {
                     let mut l = labels.clone();
                     l.push(m.name().into());
@@ -164,9 +166,21 @@ fn modes_oracle(tm: &TypeMap, args: &[Sexp]) -> Sexp {
             None => return fail(format!("omit-mode error not reported in generate mode: {}..{} {}", d.start, d.end, d.message)),
         }
     }
+    // the CLI leg: the real binary without the flag behaves as in-process Generate, with --no-dynamic-binding as Reject
+    let cli = args.iter().find_map(|a| a.as_node().filter(|(t, _)| *t == "cli").and_then(|(_, xs)| xs[0].as_bool())).unwrap_or(false);
+    if cli {
+        if let Err(e) = cli_leg(&t.src, false, g_acc, g.ui.as_deref(), g.header.as_deref()) {
+            return fail(format!("CLI without --no-dynamic-binding vs in-process generate mode: {e}"));
+        }
+        if let Err(e) = cli_leg(&t.src, true, r_acc, r.ui.as_deref(), None) {
+            return fail(format!("CLI with --no-dynamic-binding vs in-process reject mode: {e}"));
+        }
+    }
     node(
         "ok",
         vec![
+            atom("cli"),
+            num(cli as u8),
             atom("accepted"),
             atom(format!("{}{}{}", g_acc as u8, r_acc as u8, o_acc as u8)),
             atom("errors"),
@@ -179,6 +193,49 @@ fn modes_oracle(tm: &TypeMap, args: &[Sexp]) -> Sexp {
     )
 }
 
+/// One run of the real CLI on `MyType.qml` in a fresh temp dir: exit status 0 exactly when the in-process run accepts; then
+/// `mytype.ui` (and, in generate mode, `uisupport_mytype.h`) exist with the in-process bytes; otherwise neither exists; a
+/// header never exists with `--no-dynamic-binding`.
+fn cli_leg(src: &str, no_dynamic_binding: bool, accepted: bool, ui: Option<&str>, header: Option<&str>) -> Result<(), String> {
+    use std::fs;
+    use std::process::Command;
+    let bin = env::cli_binary();
+    let dir = tempfile::Builder::new().prefix("qv-c14-").tempdir_in(std::env::temp_dir()).map_err(|e| e.to_string())?;
+    let p = dir.path();
+    fs::write(p.join("MyType.qml"), src).map_err(|e| e.to_string())?;
+    let mut cmd = Command::new(&bin);
+    cmd.current_dir(p).arg("generate-ui").arg("--foreign-types").arg(format!("{}/contrib/metatypes", env::REPO));
+    if no_dynamic_binding {
+        cmd.arg("--no-dynamic-binding");
+    }
+    let out = cmd.arg("MyType.qml").env("NO_COLOR", "1").output().map_err(|e| format!("cannot run {}: {e}", bin.display()))?;
+    let code = out.status.code();
+    let res = (|| {
+        if code != Some(if accepted { 0 } else { 1 }) {
+            return Err(format!("exit status {code:?}, in-process accepted = {accepted}; stderr: {}", String::from_utf8_lossy(&out.stderr).chars().take(300).collect::<String>()));
+        }
+        let ui_file = fs::read_to_string(p.join("mytype.ui")).ok();
+        let h_file = fs::read_to_string(p.join("uisupport_mytype.h")).ok();
+        if accepted {
+            if ui_file.as_deref() != ui {
+                return Err(format!("mytype.ui {} the in-process .ui", if ui_file.is_some() { "differs from" } else { "is missing; expected" }));
+            }
+            if no_dynamic_binding {
+                if h_file.is_some() {
+                    return Err("uisupport_mytype.h written with --no-dynamic-binding".into());
+                }
+            } else if h_file.as_deref() != header {
+                return Err(format!("uisupport_mytype.h {} the in-process header", if h_file.is_some() { "differs from" } else { "is missing; expected" }));
+            }
+        } else if ui_file.is_some() || h_file.is_some() {
+            return Err(format!("not accepted in-process, but the CLI wrote {}{}", if ui_file.is_some() { "mytype.ui " } else { "" }, if h_file.is_some() { "uisupport_mytype.h" } else { "" }));
+        }
+        Ok(())
+    })();
+    drop(dir);
+    res
+}
+
 /// hand-written regression documents (used once, to write corpus/C14)
 fn witness_request(name: &str) -> Sexp {
     let (src, needs) = match name {
@@ -188,7 +245,9 @@ fn witness_request(name: &str) -> Sexp {
         "header-const" => ("import qmluic.QtWidgets\n\nQWidget {\n    QAction { id: a; separator: true; text: \"whatever\" }\n}\n", "yes"),
         // constants and a warning only: accepted in all three modes
         "warning-only" => ("import qmluic.QtWidgets 6.2\n\nQWidget {\n    QLabel { id: l; text: \"x\" }\n}\n", "no"),
+        // round 4: a handler and a dynamic binding; the CLI leg (`--no-dynamic-binding` = reject, no flag = generate)
+        "cli-dynamic" => ("import qmluic.QtWidgets\n\nQWidget {\n    QLineEdit { id: edit }\n    QLabel { id: l; text: edit.text }\n    QPushButton { id: b; onClicked: edit.clear() }\n}\n", "yes"),
         _ => return node("bad-request", vec![]),
     };
-    node("c14-modes", vec![node("src", vec![st(src)]), node("needs-header", vec![atom(needs)])])
+    node("c14-modes", vec![node("src", vec![st(src)]), node("needs-header", vec![atom(needs)]), node("cli", vec![crate::sexp::boolean(true)])])
 }
